@@ -202,6 +202,18 @@ func checkC17(c *Ctx) error {
 		if eN != 0 || eS != 0 {
 			return
 		}
+		// "the accept/reject decision is the same in both modes" - also where the decision is taken by the output path: a directory
+		// that does not exist, a path below a regular file, a directory in the place of the file
+		_ = os.MkdirAll(filepath.Join(dir, "a-directory.go"), 0o755)
+		for _, out := range []string{"no/such/dir/gen.go", "fresh-normal.go/below-a-file.go", "a-directory.go"} {
+			e1, _ := run(out, false)
+			e2, _ := run(out, true)
+			c.Add("mode_pairs_with_unusable_output_paths", 1)
+			if (e1 == 0) != (e2 == 0) {
+				c.Violate("output-path-decides-differently-in-stub-mode", fmt.Sprintf("unit %s: -o %s: exit %d in normal mode, %d with --stub", nu.ID, out, e1, e2), unitFiles(nu))
+			}
+			_ = os.RemoveAll(filepath.Join(dir, "no"))
+		}
 		steps := []bool{false, true, true, false, true, false, false}
 		for si, stub := range steps {
 			e, f := run("same.go", stub)
